@@ -96,7 +96,7 @@ pub fn sweep(threads: usize) -> (u64, Vec<i64>) {
 }
 
 fn year_days(y: i32) -> std::ops::RangeInclusive<i64> {
-    dn(NaiveDate::from_ymd_opt(y, 1, 1).unwrap())..=dn(NaiveDate::from_ymd_opt(y, 12, 31).unwrap())
+    days_from_civil(y, 1, 1)..=days_from_civil(y, 12, 31)
 }
 
 fn ymd_event(y: i32, m: u32, d: u32) -> Value {
@@ -136,14 +136,14 @@ pub fn run(ctx: &Ctx) -> Value {
         for base in [2000i32, -262_000, 261_600] {
             seen.clear();
             for y in base..base + 400 {
-                let j1 = NaiveDate::from_ymd_opt(y, 1, 1).unwrap();
-                if seen.insert((j1.weekday(), j1.leap_year())) { days.extend(year_days(y)); }
+                let j1 = days_from_civil(y, 1, 1);
+                if seen.insert(((j1 - 1).rem_euclid(7), days_from_civil(y + 1, 1, 1) - j1)) { days.extend(year_days(y)); }
             }
         }
         for y in [-262_143, -262_142, 262_141, 262_142, -1, 0, 1, 1582, 1900, 1970] { days.extend(year_days(y)); }
         // year boundaries of all 400 residues: the week-53 / week-1 neighbourhood
         for y in 1999..2400 {
-            let j1 = dn(NaiveDate::from_ymd_opt(y, 1, 1).unwrap());
+            let j1 = days_from_civil(y, 1, 1);
             days.extend(j1 - 4..=j1 + 4);
         }
     } else {
@@ -185,6 +185,13 @@ pub fn run(ctx: &Ctx) -> Value {
         for o in 0..=367 { tw.emit(yo_event(y, o)); n_ctor += 1; }
         for w in 0..=54 { for wdi in 0..7 { tw.emit(iso_event(y, w, wdi)); n_ctor += 1; } }
     }
+    // width aliases of valid arguments: v + 2^j must denote nothing
+    for (m, d) in [(2u32, 29u32), (12, 31), (1, 1)] {
+        for a in crate::rng::alias_u32(m) { tw.emit(ymd_event(2024, a, d)); n_ctor += 1; }
+        for a in crate::rng::alias_u32(d) { tw.emit(ymd_event(2024, m, a)); n_ctor += 1; }
+    }
+    for o in [1u32, 60, 366] { for a in crate::rng::alias_u32(o) { tw.emit(yo_event(2024, a)); n_ctor += 1; } }
+    for w in [1u32, 52, 53] { for a in crate::rng::alias_u32(w) { tw.emit(iso_event(2020, a, 3)); n_ctor += 1; } }
     // ISO years one beyond the calendar-year range are valid where the day is representable
     for y in [-262_145, -262_144, -262_143, 262_142, 262_143, 262_144] {
         for w in [1u32, 2, 51, 52, 53] { for wdi in 0..7 { tw.emit(iso_event(y, w, wdi)); n_ctor += 1; } }
